@@ -717,3 +717,163 @@ def run_stream(case: dict) -> Result:
     res.count("late_events", st.late_events)
     res.nontrivial = n >= 2 and st.windows_emitted >= 1
     return res
+
+
+# ==========================================================================
+# Several EventLogs with pluggable sharding strategies, optionally ONE strategy object shared by all of them
+
+
+def gen_sharedlog(rng: random.Random, tier: str) -> dict:
+    n_logs = rng.choice([1, 2, 2, 2, 3])
+    sizes = [rng.randint(1, 8) for _ in range(n_logs)]
+    if n_logs > 1 and rng.random() < 0.6:
+        sizes = rng.sample(range(1, 9), n_logs)  # all different
+    kind = rng.choice(["hash", "range", "range_bounds", "consistent", "consistent", "consistent_seed", "consistent_seed"])
+    strat = {"kind": kind}
+    if kind == "range_bounds":
+        strat["boundaries"] = sorted(rng.sample(["b", "f", "k", "m", "user-3", "user-7", "z"], min(sizes) - 1)) if min(sizes) > 1 else []
+    if kind.startswith("consistent"):
+        strat["vnodes"] = rng.choice([3, 20, 100])
+        if kind == "consistent_seed":
+            strat["seed"] = rng.choice([0, 7, 12345])
+    style = rng.choice(["users", "users", "short"])
+    if style == "users":
+        keys = [f"user-{i}" for i in range(rng.randint(1, 12))]
+    else:
+        keys = _keys(rng, rng.randint(1, 10))
+    ops = []
+    t = 1
+    val = 0
+    pattern = rng.choice(["rounds", "rounds", "random", "ping-pong"])
+    if pattern == "rounds":
+        # every key to log 0, then every key to log 1, ... repeated
+        for _ in range(rng.randint(1, 4)):
+            for li in range(n_logs):
+                for k in keys:
+                    t += rng.choice([0, 1, 2])
+                    ops.append({"t": t, "log": li, "key": k, "val": val})
+                    val += 1
+    elif pattern == "ping-pong":
+        for _ in range(rng.randint(2, 30)):
+            k = rng.choice(keys)
+            for li in range(n_logs):
+                t += rng.choice([0, 1, 3])
+                ops.append({"t": t, "log": li, "key": k, "val": val})
+                val += 1
+    else:
+        for _ in range(rng.choice([3, 10, 40, 80])):
+            t += rng.choice([0, 1, 5, 20])
+            ops.append({"t": t, "log": rng.randrange(n_logs), "key": rng.choice(keys), "val": val})
+            val += 1
+    return {
+        "sizes": sizes,
+        "strategy": strat,
+        "shared": rng.random() < 0.7,
+        "append_latency": rng.choice([0.0, 0.001, 0.004]),
+        "ops": ops,
+    }
+
+
+def _make_strategy(spec):
+    k = spec["kind"]
+    if k == "hash":
+        return HashSharding()
+    if k == "range":
+        return RangeSharding()
+    if k == "range_bounds":
+        return RangeSharding(boundaries=list(spec.get("boundaries", [])) or None)
+    return ConsistentHashSharding(virtual_nodes=int(spec.get("vnodes", 100)), seed=spec.get("seed"))
+
+
+class _MultiLogClient(Entity):
+    def __init__(self, name, logs, out):
+        super().__init__(name)
+        self.logs = logs
+        self.out = out
+
+    def handle_event(self, event):
+        op = event.context["op"]
+        log = self.logs[op["log"]]
+        rec = yield from log.append(op["key"], op["val"])
+        self.out.append({"log": op["log"], "key": op["key"], "val": op["val"], "rec": rec, "t1": self.now.nanoseconds})
+        return None
+
+
+def run_sharedlog(case: dict) -> Result:
+    res = Result()
+    comp = "EventLog"
+    sizes = [int(x) for x in case["sizes"]]
+    spec = case["strategy"]
+    shared = bool(case["shared"]) and len(sizes) > 1
+    one = _make_strategy(spec)
+    logs = []
+    for i, n in enumerate(sizes):
+        logs.append(
+            EventLog(
+                f"log{i}",
+                num_partitions=n,
+                sharding_strategy=one if shared else _make_strategy(spec),
+                append_latency=float(case["append_latency"]),
+            )
+        )
+    distinct_sizes = len(set(sizes)) > 1
+    shape = "sharding=" + spec["kind"].replace("_seed", "") + ("/one-strategy-object-shared-by-logs-of-different-size" if shared and distinct_sizes else "/shared-same-size" if shared else "/strategy-per-log")
+    out = []
+    cl = _MultiLogClient("client", logs, out)
+    ops = sorted(case["ops"], key=lambda o: o["t"])
+    t_last = ops[-1]["t"] if ops else 1
+    sim = Simulation(entities=[*logs, cl], end_time=Instant((t_last + 200) * MS))
+    for op in ops:
+        sim.schedule(Event(time=Instant(op["t"] * MS), event_type="op", target=cl, context={"op": op}))
+    with EngineProbe(instant_cap=20000, total_cap=300000) as p:
+        try:
+            status = p.run(sim)
+        except IndexError as exc:
+            res.add("append-raised-partition-out-of-range", comp, shape, f"IndexError during an append: {exc}; sizes {sizes}")
+            res.count("shared_appends_checked", len(out))
+            return res
+    if status != "completed":
+        res.inconclusive = f"run status {status}"
+        return res
+    res.count("events_monitored", p.n_deliveries)
+    out.sort(key=lambda a: a["t1"])
+    key_parts = {}
+    offs = {}
+    for a in out:
+        r = a["rec"]
+        res.count("shared_appends_checked")
+        if not 0 <= r.partition < sizes[a["log"]]:
+            res.add("partition-out-of-range", comp, shape, f"log{a['log']} ({sizes[a['log']]} partitions): {r}")
+        key_parts.setdefault((a["log"], r.key), []).append(r.partition)
+        offs.setdefault((a["log"], r.partition), []).append(r.offset)
+    moved = {k: v for k, v in key_parts.items() if len(set(v)) > 1}
+    if moved:
+        (li, key), parts = sorted(moved.items())[0]
+        res.add(
+            "key-maps-to-two-partitions",
+            comp,
+            shape,
+            f"{len(moved)} of {len(key_parts)} (log, key) pairs changed partition, e.g. log{li} ({sizes[li]} partitions) key {key!r} -> {parts[:8]}; sizes {sizes}",
+        )
+    # the same through the logs' own contents: records of one key sit in one partition
+    for li, log in enumerate(logs):
+        where = {}
+        for part in log.partitions:
+            for r in part.records:
+                where.setdefault(r.key, set()).add(part.id)
+        for key, ps in where.items():
+            res.count("stored_keys_checked")
+            if len(ps) > 1 and (li, key) not in moved:
+                res.add("key-stored-in-two-partitions", comp, shape, f"log{li} key {key!r} in partitions {sorted(ps)}")
+    for (li, pid), o in offs.items():
+        if o != list(range(len(o))):
+            res.add("append-offsets-not-0-1-2", comp, shape, f"log{li} partition {pid}: {o[:30]}")
+    if len(out) != len(ops):
+        res.add("append-never-completed", comp, shape, f"{len(ops) - len(out)} appends did not return")
+    switches = sum(1 for a, b in zip(ops, ops[1:]) if a["log"] != b["log"])
+    res.count("log_switches", switches)
+    if shared and distinct_sizes:
+        res.count("cases_shared_strategy_different_sizes")
+    res.nontrivial = len(out) >= 4 and any(len(v) >= 2 for v in key_parts.values()) and (len(sizes) == 1 or switches >= 3)
+    res.seen("sharding_kinds", spec["kind"])
+    return res
